@@ -439,6 +439,11 @@ func (env *specEnv) binary(n *EBinary) Val {
 				for i := range b.L {
 					b.L[i] = "0"
 				}
+			} else if _, isI := typeUnder(a.T).(*types.Interface); isI && len(a.L) == 2 && b.T != nil && !types.IsInterface(b.T) {
+				// interface == concrete value: Go converts the concrete operand to the interface type
+				b = env.withState(env.st, func() Val { return e.makeIface(b, b.T) })
+			} else if _, isI := typeUnder(b.T).(*types.Interface); b.T != nil && isI && len(b.L) == 2 && a.T != nil && !types.IsInterface(a.T) {
+				a = env.withState(env.st, func() Val { return e.makeIface(a, a.T) })
 			} else {
 				sfail("comparing values of different shapes")
 			}
@@ -664,6 +669,8 @@ func (env *specEnv) call(n *ECall) Val {
 		switch t := v.T.Underlying().(type) {
 		case *types.Slice:
 			if n.Fun == "len" {
+				// a slice length is never negative (a fact of the Go type, also for headers read from the heap)
+				e.rangeFacts = append(e.rangeFacts, e.idxLe(e.idxConst(0), v.L[2]))
 				return Val{T: tInt, L: []string{v.L[2]}}
 			}
 			return Val{T: tInt, L: []string{v.L[3]}}
@@ -729,6 +736,10 @@ func (env *specEnv) call(n *ECall) Val {
 			sfail("typeis(iface, \"type\")")
 		}
 		t := env.resolveType(s.V)
+		if it, isI := t.Underlying().(*types.Interface); isI {
+			// typeis(x, "Iface"): the dynamic type of x implements the interface (what `x.(Iface)` tests)
+			return Val{T: tBool, L: []string{e.implementsCond(v.L[0], it)}}
+		}
 		return Val{T: tBool, L: []string{seq(v.L[0], e.typeTag(t))}}
 	case "apply":
 		// apply(f, args...): the result of calling the pure function value f
